@@ -38,7 +38,7 @@ from instr import core, diskcache
 ID = 'C18'
 COQ_PROP = 'C18'
 LEVEL = 'proof'
-TRANSLATE = ['format', 'disk']
+TRANSLATE = ['format', 'disk', 'fanout', 'persistent', 'sql']
 TRUSTED = [
     'coq/model/Format_5_6_3.v: hand copy of the released on-disk format (schema, settings, file layout, queue keys, shard naming, key/value/lookup/routing decision trees) made once from git revision 5a4f96f; the golden directory fixtures/golden-5.6.3 written by that revision is read back on every run',
     'coq/model/Open.v: dictionaries as assignment sequences (last pair wins), INSERT OR REPLACE / INSERT OR IGNORE of the Settings table; compared with Cache / FanoutCache on random stored and given settings on every run',
